@@ -7,7 +7,7 @@
 //!        c02 ops <seed> <n> <cases_out> <impl_out>  cursor-algebra differential (TokenStream vs Parse/Stream.v)
 //!        c02 opsfile <cases_in> <impl_out>          the same on recorded cases
 //!
-//! `work` writes, flushed, `B <i>` before an input is touched and `R <i> <json>` after it: when the
+//! `work` writes, flushed, `B <i> <bytes>` before an input is touched and `R <i> <json>` after it: when the
 //! process hangs, is killed or aborts, the last `B` names the input in flight (checks/c02.py is the
 //! watchdog: CPU time per input, address-space limit, abnormal exit).
 //!
@@ -1190,7 +1190,7 @@ fn gen(seed: u64, tier: &str, out_path: &str) {
     let with_chain = tier.contains("+chain");
     let with_nestproc = tier.contains("+nestproc");
     let tier = tier.split('+').next().unwrap();
-    let scale = if tier == "thorough" { 30 } else { 1 };
+    let scale = if tier == "thorough" { 60 } else { 1 };
     let mut r = Rng::new(seed ^ 0xC02);
     let mut f = std::io::BufWriter::new(std::fs::File::create(out_path).unwrap());
     let mut emit = |class: &str, text: &str| {
@@ -1440,8 +1440,9 @@ fn gen(seed: u64, tier: &str, out_path: &str) {
         writeln!(f, "{} @{}", class, recipe).unwrap();
         writeln!(f, "{}@2m @{}", class, recipe).unwrap();
     };
-    for (name, ..) in NEST_SHAPES.iter() {
-        for n in [50usize, 200, 600, 5000, 20000, 100000] {
+    // depth-major order: the expensive depths are consecutive lines, which the round-robin sharding spreads evenly
+    for n in [100000usize, 20000, 5000, 600, 200, 50] {
+        for (name, ..) in NEST_SHAPES.iter() {
             for cu in ["c", "u"] {
                 emit_recipe(format!("deep/{}/{}/{}", name, n, cu), format!("nest:{},{},{}", name, n, cu));
             }
@@ -1486,9 +1487,10 @@ fn work(cases: &str, out_path: &str, start: usize, end: usize, stride: usize, of
         let mut it = line.splitn(2, ' ');
         let class = it.next().unwrap_or("");
         let h = it.next().unwrap_or("");
-        writeln!(out, "B {}", i).unwrap();
-        out.flush().unwrap();
         let input = if let Some(recipe) = h.strip_prefix('@') { shape_text(recipe) } else { unhex(h) };
+        // `B <index> <bytes>`: the watchdog scales its CPU limit with the size of the input
+        writeln!(out, "B {} {}", i, input.len()).unwrap();
+        out.flush().unwrap();
         let res = if class.ends_with("@2m") {
             // the stack size of rayon / std worker threads
             std::thread::scope(|sc| {
